@@ -132,6 +132,54 @@ def _split(test, env):
     return [([(t, True)], True), ([(t, False)], False)]
 
 
+_LOOP_PURE = {"len", "int", "bool", "abs", "min", "max", "range", "ord",
+              "enumerate", "zip", "xor", "reversed", "bytes", "tuple"}
+
+
+def _loop_locals(s):
+    out = set()
+    tg = [s.target] if isinstance(s, ast.For) else []
+    for n in tg + list(s.body):
+        for x in ast.walk(n):
+            if isinstance(x, ast.Name) and isinstance(x.ctx, ast.Store):
+                out.add(x.id)
+    return out
+
+
+def _accumulator_loop(s):
+    """Only assignments to plain local names, computed from expressions
+    without effects; no way out of the loop but its end."""
+    for st in s.body:
+        for x in ast.walk(st):
+            if isinstance(x, (ast.Return, ast.Raise, ast.Break, ast.Yield,
+                              ast.YieldFrom, ast.Await, ast.Try, ast.With,
+                              ast.Global, ast.Nonlocal, ast.Delete,
+                              ast.NamedExpr, ast.FunctionDef, ast.Lambda)):
+                return False
+            if isinstance(x, (ast.Assign, ast.AugAssign, ast.AnnAssign)):
+                tg = x.targets if isinstance(x, ast.Assign) else [x.target]
+                if not all(isinstance(t, ast.Name) for t in tg):
+                    return False
+            if isinstance(x, ast.Expr) and not isinstance(
+                    x.value, ast.Constant):
+                return False
+            if isinstance(x, ast.Call) and not (isinstance(
+                    x.func, ast.Name) and x.func.id in _LOOP_PURE):
+                return False
+    hdr = s.iter if isinstance(s, ast.For) else s.test
+    for x in ast.walk(hdr):
+        if isinstance(x, ast.Call) and not (isinstance(
+                x.func, ast.Name) and x.func.id in _LOOP_PURE):
+            return False
+        if isinstance(x, (ast.Yield, ast.YieldFrom, ast.Await,
+                          ast.NamedExpr)):
+            return False
+    if isinstance(s, ast.For) and not isinstance(s.target, (ast.Name,
+                                                            ast.Tuple)):
+        return False
+    return True
+
+
 def summaries(fn, max_paths=2048, params_env=None, try_prefixes=False):
     out = []
 
@@ -288,6 +336,15 @@ def summaries(fn, max_paths=2048, params_env=None, try_prefixes=False):
                     run(list(s.body[:i]) + list(h.body) + list(rest),
                         conds + [(mark, True)], env, effects, k, retk)
             return
+        if isinstance(s, ast.For) and not s.orelse and \
+                _accumulator_loop(s):
+            # a loop that only computes locals (a checksum, a count): no
+            # effect, no exit; what it leaves in its locals is not followed
+            e2 = dict(env)
+            for nm in _loop_locals(s):
+                e2[nm] = ast.Name("<%s after the loop at line %s>" % (
+                    nm, getattr(s, "lineno", "?")), ast.Load())
+            return run(rest, conds, e2, effects, k, retk)
         raise Unsupported("%s: statement %s at line %s is outside the "
                           "loop-free subset" % (fn.name, type(s).__name__,
                                                 getattr(s, "lineno", "?")))
